@@ -228,37 +228,52 @@ class C20(Check):
             settings = [c for c in walk_no_nested(f) if isinstance(c, ast.Call) and dotted(c.func).endswith("_Settings")]
             delegs = [c for c in walk_no_nested(f) if isinstance(c, ast.Call) and "as_deepcopy" in {k.arg for k in c.keywords}]
             cons = "copy-reaches-settings"
+            mparam = "model" if "model" in pnames else None
             if settings:
+                # copy variable: `if as_deepcopy: P = deepcopy(P)` (C = P) or `C = deepcopy(P) if as_deepcopy else P`
+                copyvar = None
+                copy_line = None
+                for i, st in enumerate(body):
+                    if isinstance(st, ast.If) and norm(st.test) == "as_deepcopy" and not st.orelse and len(st.body) == 1 and isinstance(st.body[0], ast.Assign):
+                        a0 = st.body[0]
+                        if isinstance(a0.value, ast.Call) and norm(a0.value.func) in ("deepcopy", "copy.deepcopy") and norm(a0.targets[0]) == norm(a0.value.args[0]):
+                            copyvar, copy_line = norm(a0.targets[0]), st.lineno
+                    if isinstance(st, ast.Assign) and isinstance(st.value, ast.IfExp) and norm(st.value.test) == "as_deepcopy" \
+                            and isinstance(st.value.body, ast.Call) and norm(st.value.body.func) in ("deepcopy", "copy.deepcopy") \
+                            and norm(st.value.body.args[0]) == norm(st.value.orelse):
+                        copyvar, copy_line = norm(st.targets[0]), st.lineno
                 ok_all = True
                 why = ""
-                for s in settings:
-                    kw = {k.arg: k.value for k in s.keywords}
-                    mv = kw.get("model")
-                    t = norm(mv)
+                node_bad = settings[0]
+                for sc_ in settings:
+                    kw = {k.arg: k.value for k in sc_.keywords}
+                    t = norm(kw.get("model"))
                     if t in ("deepcopy(i.model) if as_deepcopy else i.model", "copy.deepcopy(i.model) if as_deepcopy else i.model"):
                         continue
-                    if isinstance(mv, ast.Name):
-                        # `if as_deepcopy: model = deepcopy(model)` must precede, at top level, before any other use
-                        idx = [i for i, st in enumerate(body) if isinstance(st, ast.If) and norm(st.test) == "as_deepcopy"
-                               and [norm(b) for b in st.body] in ([f"{mv.id} = deepcopy({mv.id})"], [f"{mv.id} = copy.deepcopy({mv.id})"]) and not st.orelse]
-                        if not idx:
-                            ok_all, why = False, f"`{mv.id}` is stored in the settings without a preceding `if as_deepcopy: {mv.id} = deepcopy({mv.id})`"
-                            break
-                        used_before = [st for st in body[: idx[0]] if mv.id in {x.id for x in ast.walk(st) if isinstance(x, ast.Name)}]
-                        mutated_before = [st for st in used_before if any(isinstance(c, ast.Call) and isinstance(c.func, ast.Attribute)
-                                                                         and norm(c.func.value) == mv.id and c.func.attr.startswith(("update", "add", "remove", "scale", "make"))
-                                                                         for c in ast.walk(st))]
-                        si = [i for i, st in enumerate(body) if any(x is s for x in ast.walk(st))]
-                        if mutated_before or (si and si[0] < idx[0]):
-                            ok_all, why = False, "the model is updated / stored before the copy is made"
-                            break
-                    else:
-                        ok_all, why = False, f"model handed to the settings is `{t}`"
+                    if copyvar is None:
+                        ok_all, why = False, f"`{t}` is stored in the settings and no copy is made under as_deepcopy"
                         break
+                    if t != copyvar:
+                        ok_all, why = False, f"the settings receive `{t}`, not the copy `{copyvar}`"
+                        break
+                    if sc_.lineno < copy_line:
+                        ok_all, why = False, "the settings are built before the copy is made"
+                        break
+                if ok_all and copyvar is not None and mparam is not None:
+                    # the caller's object must not be touched once a separate copy exists / before it is copied
+                    uses = [x for x in walk_no_nested(f) if isinstance(x, ast.Name) and x.id == mparam and isinstance(x.ctx, ast.Load)]
+                    if copyvar != mparam:
+                        later = [x for x in uses if x.lineno > copy_line]
+                        if later:
+                            ok_all, why, node_bad = False, f"the caller's `{mparam}` is used again (line {later[0].lineno}) although the routine works on the copy `{copyvar}`: it can be updated or returned instead of the copy", later[0]
+                    mutated_before = [c for c in walk_no_nested(f) if isinstance(c, ast.Call) and isinstance(c.func, ast.Attribute) and norm(c.func.value) == mparam
+                                      and c.func.attr.startswith(("update", "add", "remove", "scale", "make")) and c.lineno < copy_line]
+                    if mutated_before:
+                        ok_all, why, node_bad = False, "the model is updated before the copy is made", mutated_before[0]
                 if ok_all:
-                    self.holds("L2", ROUT, name, cons, settings[0], "the settings receive the deep copy whenever as_deepcopy is set")
+                    self.holds("L2", ROUT, name, cons, settings[0], "the settings receive the deep copy whenever as_deepcopy is set; the caller's model is not touched afterwards")
                 else:
-                    self.violated("L2", ROUT, name, cons, settings[0], why, witness="the caller's model carries the optimiser's last candidate values after the fit")
+                    self.violated("L2", ROUT, name, cons, node_bad, why, witness="the caller's model carries fitted / candidate values after the fit although as_deepcopy=True")
             elif delegs and all({k.arg: norm(k.value) for k in c.keywords}["as_deepcopy"] == "as_deepcopy" for c in delegs):
                 self.holds("L2", ROUT, name, cons, delegs[0], f"delegates with as_deepcopy=as_deepcopy to {dotted(delegs[0].func) or 'a routine'}")
             else:
@@ -321,6 +336,7 @@ class C20(Check):
             Variant("mae-without-abs", LOSSES, "mae", "np.mean(np.abs(y_true - y_pred))", "np.mean(y_true - y_pred)", expect="L1|fit/losses.py|mae", quick=True),
             Variant("default-no-copy", ROUT, "time_course", "as_deepcopy: bool=True", "as_deepcopy: bool=False", expect="L2|fit/routines.py|time_course|default-true", quick=True),
             Variant("settings-before-copy", ROUT, "steady_state", "    if as_deepcopy:\n        model = deepcopy(model)\n", "    original = model\n    if as_deepcopy:\n        copied = deepcopy(model)\n", expect="L2|"),
+            Variant("copy-made-but-original-used", ROUT, "protocol_time_course", "    if as_deepcopy:\n        model = deepcopy(model)\n", "    fit_model = deepcopy(model) if as_deepcopy else model\n", expect="L2|fit/routines.py|protocol_time_course|"),
             Variant("joint-ignores-flag", ROUT, "joint_steady_state", "model=deepcopy(i.model) if as_deepcopy else i.model", "model=i.model", expect="L2|"),
             Variant("carousel-forces-false", ROUT, "carousel_time_course", "as_deepcopy=as_deepcopy", "as_deepcopy=False", expect="L2|"),
             Variant("failure-to-zero", ROUT, "time_course_residual", "return cast(float, np.inf)", "return 0.0", expect="L3|", quick=True),
@@ -334,6 +350,7 @@ class C20(Check):
         return [
             Variant("mse-pow-form", LOSSES, "mean_squared", "np.square(y_pred - y_true)", "(y_pred - y_true) ** 2", quick=True),
             Variant("mae-swapped-difference", LOSSES, "mae", "np.abs(y_true - y_pred)", "np.abs(y_pred - y_true)"),
+            Variant("separate-copy-variable", ROUT, "steady_state", "    if as_deepcopy:\n        model = deepcopy(model)\n", "    model = deepcopy(model) if as_deepcopy else model\n"),
             Variant("rmse-scaled", LOSSES, "rmse", "np.sqrt(np.mean(np.square(y_pred - y_true)))", "2.0 * np.sqrt(np.mean(np.square(y_pred - y_true)))"),
         ]
 
